@@ -161,7 +161,7 @@ func checkC15(p *Prog, r *Report) {
 }
 
 func evalCheck(p *Prog, chk, gt *ssa.Function, script []relKind) string {
-	in := &interp{p: p, f: chk, maxPaths: 20000, maxVisit: len(script) + 1}
+	in := &interp{p: p, f: chk, maxPaths: 20000, maxVisit: len(script) + 1, inline: smallHelper}
 	if deep {
 		in.maxPaths = 200000
 	}
